@@ -333,8 +333,8 @@ def step (st : St') (line : String) : St' × String :=
         | none => (st, "BADLINE")
       | ["conncreate", n, body, valid] =>
         fin (some (.connCreate n body (b01 valid))) (if (s.l.connectors.get n).isSome || !b01 valid then "rejected" else "ok")
-      | ["connupdate", n, body, valid] =>
-        fin (some (.connUpdate n body (b01 valid))) (if (s.l.connectors.get n).isNone || !b01 valid then "rejected" else "ok")
+      | ["connupdate", n, bn, body, valid] =>
+        fin (some (.connUpdate n bn body (b01 valid))) (if (s.l.connectors.get n).isNone || !b01 valid then "rejected" else "ok")
       | ["conndelete", n] => fin (some (.connDelete n)) (if (s.l.connectors.get n).isSome then "ok" else "notfound")
       | ["sync", now] =>
         match now.toNat? with
